@@ -40,6 +40,7 @@ def gen_config(rng, idx, faults=True, nclients_max=1, allow_raw=True):
     cfg["rseed"] = rng.getrandbits(32)
     cfg["pred"] = rng.random() < 0.25       # an earlier session used (and abandoned) the slot first
     # resolvers rotate / shuffle the records of an answer (the protocol numbers them 10, 20, 30 .. for that reason)
+    cfg["opt_shuffle"] = rng.getrandbits(16) if rng.random() < 0.5 else None
     cfg["rr_order"] = rng.choice(["keep", "rotate", "reverse", "shuffle"]) if cfg["qtype"] in ("MX", "SRV") else "keep"
     return cfg
 
@@ -114,6 +115,16 @@ def client_opts(cfg):
         o += ["-I", str(cfg["interval"])]
     if not cfg["raw"]:
         o += ["-r"]
+    if cfg.get("opt_shuffle") is not None:
+        # the order of options on the command line is the user's business
+        groups = []
+        i = 0
+        while i < len(o):
+            n = 1 if o[i] == "-r" else 2
+            groups.append(o[i:i + n])
+            i += n
+        random.Random(cfg["opt_shuffle"]).shuffle(groups)
+        o = [x for g in groups for x in g]
     return o
 
 
